@@ -314,6 +314,11 @@ def gen_cycle_design(r, wordlevel=False):
                 e = ["slice", [op, src(sw_), ["slice", ["sig", "f0", 4, False], 0, 2, None], max(tw, 2) if op == "bit_select" else tw], 0, tw, None]
             else:
                 e = ["slice", [op, src(tw), fr(min(tw, 2)) if op == "shl" else src(tw)], 0, tw, None]
+        elif c < 0.12:
+            # a reduction: its single output bit is wired from every bit of the operand
+            e = [r.choice(["bool", "any", "all", "xorr"]), src(r.randint(2, 3))]
+            if r.random() < 0.3:
+                e = ["inv", e]
         elif c < 0.25:
             e = src(tw)
         elif c < 0.4:
@@ -333,7 +338,7 @@ def gen_cycle_design(r, wordlevel=False):
             cond = []
             for _ in range(r.choice([1, 1, 2])):
                 kind_ = r.choice(["if", "if", "elif", "case"])
-                c1 = ["slice", src(1), 0, 1, None]
+                c1 = ["slice", src(1), 0, 1, None] if r.random() < 0.6 else src(r.randint(2, 3))     # several bits: every one of them is tested
                 cond.append([kind_, c1, ["slice", src(1), 0, 1, None]] if kind_ == "elif" else [kind_, c1])
         if r.random() < 0.12:
             kind = "sync"        # a register in the loop breaks it
@@ -576,6 +581,8 @@ def _expr_bits(e, sigs):
         return out
     if k == "inv":
         return _expr_bits(e[1], sigs)
+    if k in ("bool", "any", "all", "xorr"):
+        return [set().union(*_expr_bits(e[1], sigs))]
     if k in ("xor", "and", "or"):
         a, b = _expr_bits(e[1], sigs), _expr_bits(e[2], sigs)
         n = max(len(a), len(b))
@@ -685,6 +692,23 @@ def replay(path):
     return 1 if any(x["status"] == VIOLATION for x in res) else 0
 
 
+def interleaved_drivers():
+    """Two domains of ONE module drive interleaved bits of one signal: the first statement's bits have a hole (Cat of two slices,
+    Array of two slices, two statements) which the second domain drives (legal), or the second touches one of its bits (illegal)."""
+    out = []
+    S = lambda a, b: ["slice", ["sig", "s0", 4, False], a, b]
+    holed = [("cat", ["cat", [S(0, 1), S(2, 3)]]), ("cat-far", ["cat", [S(0, 1), S(3, 4)]]), ("array", ["array", [S(0, 1), S(3, 4)], ["sig", "k0", 1, False]])]
+    for place in ("top", "c1.g"):
+        for d1, d2 in (("comb", "sync"), ("sync", "comb"), ("sync", "d2")):
+            for nm, tgt in holed:
+                for other in (S(1, 2), S(1, 3), S(2, 4), S(0, 1), S(3, 4)):
+                    for first in (0, 1):
+                        groups = [{"place": place, "domain": d1, "stmts": [{"target": tgt, "cond": False}]},
+                                  {"place": place, "domain": d2, "stmts": [{"target": other, "cond": nm == "array"}]}]
+                        out.append({"signals": {"s0": 4, "s1": 2}, "idx": {"k0": 1, "k1": 2}, "groups": groups if first == 0 else groups[::-1]})
+    return out
+
+
 def corner_cycles():
     A = lambda n, w: ["sig", n, w, False]
     sl = lambda n, w, a, b: ["slice", A(n, w), a, b, None]
@@ -736,6 +760,15 @@ def corner_cycles():
     out.append({"signals": {"a0": 3, "a1": 1}, "free": free, "wordlevel": False,
                 "stmts": [{"place": "c1.g", "domain": "comb", "target": T_("a0", 3, 0, 2), "rhs": ["mux", sl("a1", 1, 0, 1), sl("f0", 4, 0, 2), sl("f1", 4, 0, 2)], "cond": None},
                           {"place": "c2", "domain": "comb", "target": T_("a1", 1, 0, 1), "rhs": sl("a0", 3, 1, 2), "cond": None}]})
+    # a loop through a multi-bit condition: If(a0): a0[1] = 1   (the condition tests every bit of a0)
+    out.append({"signals": {"a0": 2, "a1": 1}, "free": free, "wordlevel": False,
+                "stmts": [{"place": "top", "domain": "comb", "target": T_("a0", 2, 1, 2), "rhs": sl("f0", 4, 0, 1), "cond": [["if", A("a0", 2)]]}]})
+    # a loop through the high operand bit of a reduction: a0[2] = ~a0.xor();  a1[0] = a0[0:2].any() alone is legal
+    out.append({"signals": {"a0": 3, "a1": 1}, "free": free, "wordlevel": False,
+                "stmts": [{"place": "c1", "domain": "comb", "target": T_("a0", 3, 2, 3), "rhs": ["inv", ["xorr", A("a0", 3)]], "cond": None}]})
+    out.append({"signals": {"a0": 3, "a1": 1}, "free": free, "wordlevel": False,
+                "stmts": [{"place": "c1", "domain": "comb", "target": T_("a0", 3, 2, 3), "rhs": ["any", sl("a0", 3, 0, 2)], "cond": None},
+                          {"place": "top", "domain": "comb", "target": T_("a1", 1, 0, 1), "rhs": ["all", A("a0", 3)], "cond": None}]})
     # carry chain: bit 0 of a sum does not depend on bit 1 of the operands, but word-level analysis may say so (accepted either way)
     out.append({"signals": {"a0": 2, "a1": 2}, "free": free, "wordlevel": True,
                 "stmts": [{"place": "top", "domain": "comb", "target": T_("a0", 2, 1, 2), "rhs": ["slice", ["add", sl("a0", 2, 0, 1), sl("f0", 4, 0, 1)], 0, 1, None], "cond": None}]})
@@ -755,6 +788,8 @@ def main(tier, seed):
         nm = near_miss(r, spec)
         if nm is not None:
             jobs.append({"id": f"drv-{k:05d}n", "what": "driver", "spec": nm})
+    for i, spec in enumerate(interleaved_drivers()):
+        jobs.append({"id": f"drv-interleaved-{i:03d}", "what": "driver", "spec": spec})
     for i, spec in enumerate(corner_cycles()):
         jobs.append({"id": f"cyc-corner-{i}", "what": "cycle", "spec": spec})
     for k in range(120 if tier == "quick" else 3000):
